@@ -6,7 +6,10 @@
   2. correspondence of coq/Model/BpReasm.v with the real code: every generated arrival history is fed, fragment
      by fragment, as encoded bundle octets (independent cbor2 encoder of harness/bpdrive.py, valid CRCs) to the real
      `bp.agent.Agent.recv_bundle` under the virtual GLib loop (idle sources drained after every fragment) and, as a
-     list of [mkFrag] terms, to `BpReasm.run_render` under vm_compute.  Compared after EVERY fragment: the outcome
+     list of [Intact (mkf ..)] / [Damaged (mkf ..)] terms, to `BpReasm.run_render_arr` under vm_compute.  Histories also
+     contain DAMAGED copies of fragments (payload octet flipped, extension-block CRC wrong, primary-block CRC wrong; the
+     primary block's fields stay readable) before and after the intact copy: they must contribute nothing and suppress
+     nothing ([C06_damaged_noop]).  Compared after EVERY fragment: the outcome
      class (ignored as already seen / absorbed / reassembled and delivered / reassembled but the whole bundle had been
      seen / error), the bundles that reached an application step of the receive chain (identity, payload octets,
      extension blocks) and the complete reassembly table (key, total, valid interval set, buffer octets, first
@@ -54,7 +57,41 @@ def src_eid(idx):
 #
 # case = dict(bundles=[dict(id=[src, time, seq], payload=hex)],
 #             frags=[dict(b=bundle index, off, data=hex, total, blocks=[[type, num, hex]])],
-#             hist=[fragment index ...], kind=str)
+#             hist=[arrival ...], kind=str)
+# arrival = fragment index (an intact, CRC-valid copy)  or  [fragment index, damage] for a DAMAGED copy of it:
+#   'p' an octet of the payload flipped (payload block CRC fails), 'x' CRC of the first extension block wrong,
+#   'h' CRC of the primary block wrong; in all three the primary block's fields are still readable.
+
+def hitem(item):
+    ''' -> (fragment index, damage or None) '''
+    if isinstance(item, (list, tuple)):
+        return (item[0], item[1])
+    return (item, None)
+
+
+def intact(case):
+    ''' fragment indices of the CRC-valid arrivals, in order '''
+    return [item for item in case['hist'] if not isinstance(item, (list, tuple))]
+
+
+def encode_arrival(case, item):
+    (fidx, damage) = hitem(item)
+    spec = frag_spec(case, fidx)
+    if damage is None:
+        return bpdrive.encode_bundle(spec)
+    if damage == 'x' and not spec['blocks']:
+        damage = 'p'
+    if damage == 'p' and len(spec['payload']) == 0:
+        return bpdrive.encode_bundle(dict(spec, bad_crc={1}))
+    if damage == 'p':
+        # ... payload bstr | 0x44 crc32 (4 octets) | 0xff : flip the last payload octet, leave the CRC as computed
+        raw = bytearray(bpdrive.encode_bundle(spec))
+        raw[len(raw) - 7] ^= 0x20
+        return bytes(raw)
+    if damage == 'x':
+        return bpdrive.encode_bundle(dict(spec, bad_crc={spec['blocks'][0]['num']}))
+    return bpdrive.encode_bundle(dict(spec, bad_crc={0}))
+
 
 def frag_spec(case, fidx):
     frag = case['frags'][fidx]
@@ -64,9 +101,9 @@ def frag_spec(case, fidx):
                 blocks=[dict(type=blk[0], num=blk[1], data=bytes.fromhex(blk[2])) for blk in frag['blocks']])
 
 
-def consistent(case, fidx):
+def consistent(case, item):
     ''' The fragment is a true slice of its bundle's payload with the right total. '''
-    frag = case['frags'][fidx]
+    frag = case['frags'][hitem(item)[0]]
     pay = bytes.fromhex(case['bundles'][frag['b']]['payload'])
     data = bytes.fromhex(frag['data'])
     return frag['total'] == len(pay) and frag['off'] + len(data) <= len(pay) and pay[frag['off']:frag['off'] + len(data)] == data
@@ -119,10 +156,10 @@ def run_impl(case):
         except (AttributeError, KeyError, TypeError, ValueError):
             return None
 
-    for fidx in case['hist']:
+    for item in case['hist']:
         seen_before = seen_size()
         mark = len(log)
-        obs = drv.recv(bpdrive.encode_bundle(frag_spec(case, fidx)))
+        obs = drv.recv(encode_arrival(case, item))
         delivered = log[mark:]
         calls = obs['actions']
         if obs['decode_error'] or obs['recv_exc'] or obs['escaped']:
@@ -185,7 +222,11 @@ def coq_frag(case, fidx):
 
 
 def coq_case(case):
-    return '(' + ''.join(coq_frag(case, fidx) + ' :: ' for fidx in case['hist']) + '@nil frag)'
+    return '(' + ''.join('(%s %s) :: ' % ('Intact' if hitem(item)[1] is None else 'Damaged', coq_frag(case, hitem(item)[0]))
+                         for item in case['hist']) + '@nil arrival)'
+
+
+MODEL_FUNC = '(BpReasm.run_render_arr BpReasm.init)'
 
 
 def canon_entry(item):
@@ -199,7 +240,7 @@ def canon_model(res):
     out = []
     for (code, dels, table) in res:
         out.append(dict(
-            code=code,
+            code=(0 if code == 5 else code),     # discarded for an invalid CRC: observed like "ignored" (no trace at all)
             delivered=[dict(id=list(ident), payload=bytes(pay).hex(), blocks=[[blk[0], blk[1], bytes(blk[2]).hex()] for blk in blocks])
                        for (ident, pay, blocks) in dels],
             table=sorted(canon_entry(item) for item in table)))
@@ -249,9 +290,13 @@ def oracle(case, obs):
     by_id = {tuple(bun['id']): idx for (idx, bun) in enumerate(bundles)}
     arrived = {idx: [] for idx in range(len(bundles))}     # bundle -> fragment indices arrived so far
     count = {idx: 0 for idx in range(len(bundles))}
-    for (pos, (fidx, step)) in enumerate(zip(case['hist'], obs)):
+    for (pos, (item, step)) in enumerate(zip(case['hist'], obs)):
+        (fidx, damage) = hitem(item)
         frag = case['frags'][fidx]
-        arrived[frag['b']].append(fidx)
+        if damage is None:
+            arrived[frag['b']].append(fidx)       # only a CRC-valid copy counts as arrived
+        elif step['delivered']:
+            bad.append(('C06 / a damaged copy (invalid CRC) causes a delivery', 'step %d: %r' % (pos, [d['id'] for d in step['delivered']])))
         if step['code'] == 90:
             bad.append(('C06 / exception escapes while receiving a fragment', 'step %d: %r' % (pos, step['exc'])))
         for item in step['delivered']:
@@ -368,6 +413,15 @@ def make_case(kind, bundle_defs, hist_builder, rng):
     return dict(kind=kind, bundles=bundles, frags=frags, hist=hist_builder(per_bundle))
 
 
+def sprinkle(rng, hist, count):
+    ''' Insert `count` damaged copies of fragments of the history at random positions (before or after the intact copy). '''
+    hist = list(hist)
+    pool = [item for item in hist if not isinstance(item, list)]
+    for _ in range(count if pool else 0):
+        hist.insert(rng.randrange(len(hist) + 1), [rng.choice(pool), rng.choice('pxh')])
+    return hist
+
+
 def interleave(rng, seqs):
     ''' Merge sequences keeping each one's internal order. '''
     seqs = [list(seq) for seq in seqs if seq]
@@ -451,8 +505,22 @@ def gen_cases(chk):
                 if rng.random() < 0.15 and len(order) > 1:
                     order = order[:rng.randrange(1, len(order))]   # incomplete: must never be delivered
                 seqs.append(order)
-            return interleave(rng, seqs)
+            merged = interleave(rng, seqs)
+            return sprinkle(rng, merged, rng.randint(1, 4)) if rng.random() < 0.4 else merged
         cases.append(make_case('random', defs, build, rng))
+    # G. damaged copies: every order of 3 fragments x a damaged copy of each fragment x kind of damage x position
+    #    (first of all, right before the intact copy, right after it, last of all)
+    pay = payload_of(11, 12)
+    pieces = split_uneven(rng, 12, 3)
+    for perm in itertools.permutations(range(3)):
+        for victim in range(3):
+            for damage in 'pxh':
+                for place in range(4):
+                    at = perm.index(victim)
+                    where = [0, at, at + 1, 3][place]
+                    hist = list(perm[:where]) + [[victim, damage]] + list(perm[where:])
+                    cases.append(make_case('damaged-copy', [(IDS[0], pay, pieces)],
+                                           lambda per, hist=hist: [[per[0][it[0]], it[1]] if isinstance(it, list) else per[0][it] for it in hist], rng))
     # D. same offset, different lengths (two fragmentations of one bundle mixed): the known-finding class
     for num in range(24 if quick else 300):
         length = rng.choice([10, 16, 30])
@@ -472,7 +540,7 @@ def gen_cases(chk):
     return cases
 
 
-def make_long(count, seed, mids=6):
+def make_long(count, seed, mids=6, dmg=97):
     """ One long history for ONE agent: a first fragmented bundle (3 fragments) is delivered, then `count` other
     two-fragment bundles (neighbours interleaved), then every fragment of the first bundle and of `mids` bundles spread
     over the history (the earliest ones included) is sent again.  Deterministic from (count, seed). """
@@ -503,6 +571,8 @@ def make_long(count, seed, mids=6):
             group.append(list(per[idx + 1]))
         for lst in group:
             rng.shuffle(lst)
+        if dmg and idx % dmg == 5:
+            hist.append([group[0][0], 'pxh'[(idx // dmg) % 3]])      # a damaged copy ahead of the intact one
         hist.extend(interleave(rng, group))
         idx += len(group)
     again = [0] + sorted(set([1, 2] + [1 + (count - 1) * step // max(1, mids - 2) for step in range(mids - 1)]))
@@ -511,7 +581,7 @@ def make_long(count, seed, mids=6):
             resend = list(per[bidx])
             rng.shuffle(resend)
             hist.extend(resend)
-    return dict(kind='long', long_spec=dict(count=count, seed=seed, mids=mids), bundles=bundles, frags=frags, hist=hist)
+    return dict(kind='long', long_spec=dict(count=count, seed=seed, mids=mids, dmg=dmg), bundles=bundles, frags=frags, hist=hist)
 
 
 def gen_malformed(chk):
@@ -552,16 +622,17 @@ def gen_malformed(chk):
 # ---------------------------------------------------------------------------------------------- running
 
 def nontrivial(case):
-    ''' >= 2 distinct fragments of one bundle arrive, and the history is out of offset order, or repeats a fragment,
-    or mixes identities. '''
-    hist = case['hist']
+    ''' >= 2 distinct fragments of one bundle arrive intact, and the history is out of offset order, or repeats a
+    fragment, or mixes identities, or contains a damaged copy. '''
+    damaged = len(case['hist']) - len(intact(case))
+    hist = intact(case)
     per = {}
     for fidx in hist:
         per.setdefault(case['frags'][fidx]['b'], []).append(fidx)
     if not any(len(set(lst)) >= 2 for lst in per.values()):
         return False
     offs = [case['frags'][fidx]['off'] for fidx in hist]
-    return len(per) > 1 or len(set(hist)) < len(hist) or offs != sorted(offs)
+    return len(per) > 1 or len(set(hist)) < len(hist) or offs != sorted(offs) or damaged > 0
 
 
 class LongRun(object):
@@ -585,7 +656,7 @@ class LongRun(object):
                 out.write('From Coq Require Import List NArith.\nImport ListNotations.\n'
                           'From DTN Require Import Lib.Bytes Lib.Ivl Model.BpReasm.\n'
                           'Set Printing Depth 100000000.\nSet Printing Width 2000.\nLocal Open Scope N_scope.\n')
-                out.write('Definition c0 := %s.\nEval vm_compute in ((BpReasm.run_render BpReasm.init) c0).\n' % coq_case(case))
+                out.write('Definition c0 := %s.\nEval vm_compute in (%s c0).\n' % (coq_case(case), MODEL_FUNC))
             outfile = open(path + '.out', 'w')
             cmd = ['timeout', '3000', 'coqc', '-Q', COQ, 'DTN', path]
             chk.checker_cmds.append('coqc -Q coq DTN build/cases/cases_C06_long_%d.v  (1 history of %d fragments, Eval vm_compute)' % (idx, len(case['hist'])))
@@ -638,7 +709,7 @@ def evaluate(chk, cases, name, with_oracle=True, with_model=True):
     if with_model:
         started = time.time()
         model = chk.coq_eval(name, ['Lib.Ivl', 'Model.BpReasm'], [coq_case(case) for case in cases],
-                             '(BpReasm.run_render BpReasm.init)', chunk=min(400, max(40, -(-len(cases) // 16))),
+                             MODEL_FUNC, chunk=min(400, max(40, -(-len(cases) // 16))),
                              timeout=900 if chk.quick() else 3000)
         PHASES.append(('model:' + name, round(time.time() - started, 1)))
     return judge(chk, cases, impl, model, with_oracle)
@@ -665,12 +736,16 @@ def judge(chk, cases, impl, model, with_oracle=True):
         else:
             chk.case(ident=json.dumps(case, sort_keys=True), nontrivial=nontrivial(case),
                  sample=dict(kind=case['kind'], bundles=case['bundles'],
-                             arrival=[[case['frags'][f]['b'], case['frags'][f]['off'], len(case['frags'][f]['data']) // 2] for f in case['hist']],
+                             arrival=[[case['frags'][hitem(f)[0]]['b'], case['frags'][hitem(f)[0]]['off'],
+                                       len(case['frags'][hitem(f)[0]]['data']) // 2] + ([hitem(f)[1]] if hitem(f)[1] else [])
+                                      for f in case['hist']],
                              delivered=[[step['code'], [d['id'] for d in step['delivered']]] for step in obs]) if (pos % 211 == 5 and nontrivial(case)) else None)
         chk.count('kind', case['kind'])
         replay_obj = dict(long_spec=case['long_spec']) if 'long_spec' in case else case
         chk.count('history_length', len(case['hist']) if len(case['hist']) < 12 else '>=12')
-        chk.count('bundles_interleaved', len(set(case['frags'][f]['b'] for f in case['hist'])))
+        chk.count('bundles_interleaved', len(set(case['frags'][hitem(f)[0]]['b'] for f in case['hist'])))
+        for item in case['hist']:
+            chk.count('arrival', {None: 'intact', 'p': 'damaged-payload-octet', 'x': 'damaged-extension-block-crc', 'h': 'damaged-primary-crc'}[hitem(item)[1]])
         for step in obs:
             chk.count('outcome', {0: 'ignored-seen', 1: 'absorbed', 2: 'delivered', 3: 'complete-but-whole-seen', 4: 'error', 90: 'exception'}[step['code']])
         want = got = None
@@ -718,13 +793,15 @@ def replay(chk, path):
     obs = _impl_worker(case)
     if isinstance(obs, dict):
         raise RuntimeError(obs['harness_error'])
-    for (pos, (fidx, step)) in enumerate(zip(case['hist'], obs)):
+    for (pos, (item, step)) in enumerate(zip(case['hist'], obs)):
+        (fidx, damage) = hitem(item)
         frag = case['frags'][fidx]
         if len(obs) > 60 and 20 <= pos < len(obs) - 30:
             if pos == 20:
                 print('  ... (%d steps not shown)' % (len(obs) - 50))
             continue
-        print('  fragment bundle=%r off=%d len=%d total=%d -> code %d, delivered %s, table %s' % (
+        print('  %s bundle=%r off=%d len=%d total=%d -> code %d, delivered %s, table %s' % (
+            'fragment' if damage is None else 'DAMAGED(%s) copy of fragment' % damage,
             case['bundles'][frag['b']]['id'], frag['off'], len(frag['data']) // 2, frag['total'], step['code'],
             [(d['id'], d['payload'][:40]) for d in step['delivered']], [(e[0], e[1], e[2]) for e in (step['table'] or [])]))
     why = []
@@ -804,7 +881,10 @@ def main():
               '(C) random histories of up to 4 bundles x up to 10 fragments with overlaps, empty fragments, duplicates, late '
               'fragments after completion and truncated (incomplete) histories; (D) two different fragmentations of the same '
               'bundle mixed (same offset, different lengths); (E) inconsistent fragments (wrong totals, zero totals, data past '
-              'the end: correspondence only, outside the quantifier); (F) one LONG history on a single agent: a 3-fragment bundle '
+              'the end: correspondence only, outside the quantifier); (G) all orders of 3 fragments x a damaged copy (invalid block '
+              'CRC: payload octet flipped / extension block CRC / primary block CRC) of each fragment x 4 positions (first, just '
+              'before the intact copy, just after it, last), damaged copies also sprinkled into 40% of the random histories and '
+              'ahead of every 97th bundle of the long history; only CRC-valid copies count as arrived for the oracle; (F) one LONG history on a single agent: a 3-fragment bundle '
               'delivered, then 1500 (thorough: also 20000, oracle only) other two-fragment bundles with neighbours interleaved, then '
               'all fragments of the first bundle and of 6 bundles spread over the history sent again; every bundle must be '
               'delivered exactly once over the whole history. Non-trivial: at least two distinct fragments of one '
@@ -827,7 +907,8 @@ def main():
                      '(about 4500 identities in quick, 60000 in thorough)',
                      'fragments are received one at a time and the idle source re-injecting the reassembled bundle runs before the '
                      'next fragment (the harness drains idle sources after each recv_bundle)',
-                     'all fragments carry valid CRCs, a foreign source and a destination that the RX route table delivers locally; '
+                     'intact fragments carry valid CRC-32C on every block, a foreign source and a destination that the RX route table '
+                     'delivers locally; damaged copies have exactly one block whose CRC does not verify and a decodable primary block; '
                      'no BPSec policy is configured',
                      'the SAFE application handler (bp/app/safe.py, RX chain order 30) consumes every bundle whatever its '
                      'destination and then raises on foreign payloads; "bundles reaching an application step" are therefore observed '
